@@ -266,6 +266,19 @@ def read_tables(P, f):
     return out
 
 
+def aliases_of(f, name):
+    """the local names that are the same object as `name` through plain rebinding (`name = other`, the only definition)"""
+    out = {name}
+    todo = [name]
+    while todo:
+        cur = todo.pop()
+        defs = find_assignments(f, cur)
+        if len(defs) == 1 and isinstance(defs[0], ast.Assign) and isinstance(defs[0].value, ast.Name) and defs[0].value.id not in out:
+            out.add(defs[0].value.id)
+            todo.append(defs[0].value.id)
+    return out
+
+
 def alternatives(e):
     """the values an expanded expression may take: __phi__ arguments and both arms of conditional expressions, flattened"""
     if is_marker(e, '__phi__'):
@@ -644,6 +657,10 @@ def result_fields(prog, f, ex=None):
         for k in ctor.keywords:
             if k.arg:
                 fields[k.arg] = (ex.expand(k.value), k.value)
+        init = prog.classes[cname].find_method('__init__') if cname in prog.classes else None
+        if init is not None and ctor.args and not any(isinstance(a_, ast.Starred) for a_ in ctor.args):
+            for pname, a_ in zip(init.positional_params[1:], ctor.args):
+                fields.setdefault(pname, (ex.expand(a_), a_))
         if varname:
             rnode = f.cfg.node_of(ret)
             for n in all_nodes(f):
